@@ -7,6 +7,10 @@ use hdv::common::{self, Ctx, Tier, DEFAULT_SEED};
 use hdv::{panichook, props};
 
 fn main() {
+    if std::env::var_os("VERIF_TRACE_LOG").is_some() {
+        // debugging aid: RUST_LOG-style filter in VERIF_TRACE_LOG, output on stderr
+        let _ = tracing_subscriber::fmt().with_env_filter(tracing_subscriber::EnvFilter::new(std::env::var("VERIF_TRACE_LOG").unwrap())).with_writer(std::io::stderr).without_time().try_init();
+    }
     let args: Vec<String> = std::env::args().skip(1).collect();
     if args.is_empty() {
         eprintln!("usage: hdv <Cnn> [--tier quick|thorough] [--replay FILE]");
